@@ -358,8 +358,8 @@ def check(ctx, run):
                    witness=[list(map(str, e)) for e in et if e[0] in ("acquired", "released")], what=why)
     gm = prog.fn("MemoryLeakDetector::getMutex")
     run.analysed(gm)
-    rets = [render(gm, gm.node(n.get("value"))) for n in gm.walk() if n["k"] == "ReturnStmt"]
-    run.ob("R3", "getMutex returns the detector's mutex_ member", gm.site, rets == ["mutex_"], witness=rets)
+    rets = getter_fold(prog, gm, "mutex_")
+    run.ob("R3", "getMutex returns the detector's mutex_ member (folded)", gm.site, rets == 424242, witness=rets)
 
     def single_call(f, qn, recv=None, arg=None):
         paths = enumerate_paths(f)
